@@ -222,6 +222,12 @@ def C01(run):
                simulate='num=%d' % n, workers=8, timeout_ms=5000)
     # "nesting depth within a few hundred levels": the depth / length boundary family as text
     deep(run, family='total', profiles=('debug', 'release'))
+    # long but FLAT texts (MC_Flat.tla): a unit repeated some 10^5 times between tokens, around statements, inside comments, strings,
+    # poetic literals, identifiers and numerals, wherever the recogniser model says that repetition adds no nesting
+    run.rule += ('; long flat texts: every one-character (thorough: also two-character) unit repeated to 400 000 (100 000) characters in each '
+                 'context where the recogniser model finds the repetition flat (same tree for 2 and 3 repetitions)')
+    tlc_replay(run, 'flat', 'MC_Flat.tla', 'MC_Flat_%s.cfg' % run.tier, 'flat', profiles=('debug', 'release'), xss='256m',
+               timeout_ms=120000 if quick else 300000)
 
 
 def interp(run, fam, family='exec', profiles=('debug',)):
@@ -423,6 +429,11 @@ def C10(run):
     run.assumptions += ['hash seeds are sampled (8 runs per program), not enumerated']
     interp(run, 'DICT', family='determ')
     interp(run, 'ILL', family='determ')
+    # "nothing observable depends on time": the same input bytes delivered in different pieces (a line arriving in two reads, two
+    # lines in one) give the same run.  TLC checks ChunkIndependent on the machine; the real interpreter gets every chunking.
+    run.rule += ('; family IO: the same input bytes cut into different chunks (what successive read calls return) must give the same run '
+                 '(invariant ChunkIndependent on the machine, every chunking replayed on the real interpreter)')
+    interp(run, 'IO')
     # parsing and linting: syntax-tree dumps, parse errors and lint reports of rendered programs and of faulty texts
     grammar(run, 'block', family='dettext')
     grammar(run, 'fault', family='dettext')
